@@ -489,6 +489,46 @@ func genConsts() string {
 			fmt.Fprintf(&sb, "def websockets_sendMayQueueNil : Bool := %v  -- %s: the `[x]` branch leaves clientMessage nil for a non-string x\n", strings.Contains(src(sc), "blobMsg[0].(string); ok {") && !strings.Contains(src(sc), "clientMessage == nil"), rel)
 		}
 		fmt.Fprintf(&sb, "def websockets_injectedHeadersPath : List Bytes := %s\n", leanBytesList(stringList(env, "websocketShimInjectedHeadersPath", rel)))
+		// the shim's data handler: with header injection its request headers are copied into messages, so it must
+		// run behind the same wrapper (the session handler) as the open handler
+		{
+			srel := "agent/websockets/shim.go"
+			cs := mustFunc(parseFile(srel), srel, "", "createShimChannel")
+			wrappedVar, registered := "", false
+			ast.Inspect(cs, func(n ast.Node) bool {
+				switch x := n.(type) {
+				case *ast.AssignStmt:
+					if len(x.Lhs) == 1 && len(x.Rhs) == 1 {
+						if c, ok := x.Rhs[0].(*ast.CallExpr); ok && src(c.Fun) == "openWebsocketWrapper" && len(c.Args) >= 1 && src(c.Args[0]) == src(x.Lhs[0]) {
+							wrappedVar = src(x.Lhs[0])
+						}
+					}
+				case *ast.CallExpr:
+					if f := src(x.Fun); (f == "mux.Handle" || f == "mux.HandleFunc") && len(x.Args) == 2 && strings.Contains(src(x.Args[0]), "\"data\"") {
+						if wrappedVar != "" && src(x.Args[1]) == wrappedVar {
+							registered = true
+						}
+						if c, ok := x.Args[1].(*ast.CallExpr); ok && src(c.Fun) == "openWebsocketWrapper" {
+							registered = true
+						}
+					}
+				}
+				return true
+			})
+			fmt.Fprintf(&sb, "def websockets_dataRequestsPassSessionHandler : Bool := %v  -- %s createShimChannel: the handler registered for <shim>/data is wrapped by openWebsocketWrapper (when injection is enabled)\n", registered, srel)
+		}
+		// the handlers in front of the backend proxy dispatch on the path as received: an http.ServeMux among them
+		// answers requests whose path is not in canonical form with its own redirect
+		{
+			var muxes []string
+			for _, fr := range [][2]string{{"agent/websockets/shim.go", "Proxy"}, {"agent/banner/banner.go", "Proxy"}} {
+				fn := mustFunc(parseFile(fr[0]), fr[0], "", fr[1])
+				if strings.Contains(src(fn), "NewServeMux") {
+					muxes = append(muxes, strconv.Quote(fr[0]+":"+fr[1]))
+				}
+			}
+			fmt.Fprintf(&sb, "def agent_passthroughServeMuxes : List String := [%s]  -- handler constructors on the pass-through path that route through an http.ServeMux\n", strings.Join(muxes, ", "))
+		}
 		// ShimBody's hook runs once per response, concurrently for concurrent requests: buffers it captures from the
 		// enclosing call (instead of allocating per response) are shared between responses
 		{
